@@ -138,6 +138,38 @@ def audit_property(pid):
     return res
 
 
+def property_modules(pid):
+    """the project's own modules (CardVerif.*, CardModel.*) that Audit/<pid>.lean transitively imports"""
+    seen, todo = [], [f"CardVerif.Audit.{pid}"]
+    while todo:
+        m = todo.pop()
+        if m in seen:
+            continue
+        path = os.path.join(LEAN_DIR, *m.split(".")) + ".lean"
+        if not os.path.exists(path):
+            continue
+        seen.append(m)
+        for line in open(path, encoding="utf-8"):
+            mm = re.match(r"\s*import\s+((CardVerif|CardModel)\.[\w.]+)", line)
+            if mm:
+                todo.append(mm.group(1))
+    return sorted(m for m in seen if not m.startswith("CardVerif.Audit."))
+
+
+def leancheck(pid, timeout=3000):
+    """thorough tier: replay the declarations of every project module the property's theorems depend on through
+    `leanchecker`, the toolchain's independent re-checker of compiled .olean files (imports outside the project -- Lean
+    core, Std, Mathlib -- are loaded, not re-checked).  Modules whose theorems were closed by `native_decide` carry
+    compiled-evaluation axioms that the re-checker accepts as axioms, like the kernel does."""
+    mods = property_modules(pid)
+    if not mods:
+        return {"modules": 0, "ok": True, "wall_s": 0.0, "output": ""}
+    t0 = time.time()
+    p = subprocess.run(["lake", "env", "leanchecker", *mods], cwd=LEAN_DIR, capture_output=True, text=True, timeout=timeout)
+    return {"modules": len(mods), "ok": p.returncode == 0, "wall_s": round(time.time() - t0, 1),
+            "output": (p.stdout + p.stderr)[-1500:]}
+
+
 def grep_forbidden():
     """no sorry/admit/axiom/native_decide/... in the Lean sources (comments excluded crudely)"""
     import re
